@@ -825,7 +825,11 @@ def pruneNode (fix : Bool) : Nat → CNode → CNode
 def pruneList (fix : Bool) : Nat → List CNode → List CNode
   | 0, l => l
   | _, [] => []
-  | f + 1, c :: rest => if c.d.disabled then pruneList fix f rest else pruneNode fix f c :: pruneList fix f rest
+  | f + 1, c :: rest =>
+    if c.d.disabled then
+      -- the input / output of an operation is embedded in it: `deviate not-supported` removes its children, the node stays
+      if c.d.kind == .input || c.d.kind == .output then .mk c.d [] :: pruneList fix f rest else pruneList fix f rest
+    else pruneNode fix f c :: pruneList fix f rest
 end
 
 mutual
